@@ -22,6 +22,7 @@ from translate import t_c09
 FIELDS = ['x', 'y', 'z']
 DKEYS = ['a', 'b', 'c', 'd']
 MISSING = {'missing': True}
+NEG_DEL_OK = [False]     # `del l[-1]` reports the key path [-1] on the pinned tree (finding F110)
 _CLS = {}
 LOG = []
 OBJ_IDS = {}
@@ -136,6 +137,80 @@ def mirror(t, step):
     node['items'] = [[i, v] for i, v in enumerate(vals)]
   elif n == 'popitem':
     node['items'] = node['items'][:-1]
+  elif n in LIST_EDITS:
+    r = list_edit([v for _, v in node['items']], c)
+    if r is not None:
+      node['items'] = [[i, v] for i, v in enumerate(r[0])]
+
+
+def list_edit(vals, c, is_node=None):
+  """Python list semantics of the position-shifting calls on plain values. -> (new values,
+  [(position, old, new)] as the contract wants them reported), or None when the call raises.
+  MISSING stands for "no value"."""
+  is_node = is_node or globals()['is_node']
+  def same_atom(a, b):
+    """`old is new` for the atoms the generator uses (None, small ints, interned 1-char strs)."""
+    return not is_node(a) and not is_node(b) and a == b and type(a) == type(b)
+  n = c['name']
+  vals = list(vals)
+  L = len(vals)
+  if n == 'insert':
+    i = c['i']
+    p = max(0, i + L) if i < 0 else min(i, L)
+    return vals[:p] + [c['v']] + vals[p:], [(p, MISSING, c['v'])]
+  if n == 'delidx':
+    i = c['i']
+    if i < -L or i >= L:
+      return None
+    j = i + L if i < 0 else i
+    return vals[:j] + vals[j + 1:], [(j, vals[j], MISSING)]
+  if n == 'remove':
+    for j, x in enumerate(vals):
+      if not is_node(x) and x == c['atom'] and type(x) == type(c['atom']):
+        return vals[:j] + vals[j + 1:], [(j, x, MISSING)]
+    return None
+  if n == 'delslice':
+    if c.get('step') == 0:
+      return None
+    ps = list(range(*slice(c.get('a'), c.get('b'), c.get('step')).indices(L)))
+    return [x for j, x in enumerate(vals) if j not in ps], [(p_, vals[p_], MISSING) for p_ in sorted(ps, reverse=True)]
+  if n == 'setslice':
+    if c.get('step') == 0:
+      return None
+    start, stop, step = slice(c.get('a'), c.get('b'), c.get('step')).indices(L)
+    vs = c['vs']
+    if step == 1:
+      size = max(0, stop - start)
+      ents = []
+      for i in range(max(size, len(vs))):
+        if i < size and i < len(vs):
+          if not same_atom(vals[start + i], vs[i]):
+            ents.append((start + i, vals[start + i], vs[i]))
+        elif i < len(vs):
+          ents.append((start + i, MISSING, vs[i]))
+        else:
+          ents.append((start + i, vals[start + i], MISSING))
+      return vals[:start] + vs + vals[start + size:], ents
+    ps = list(range(start, stop, step))
+    if len(ps) != len(vs):
+      return None
+    out = list(vals)
+    ents = []
+    for p_, v in sorted(zip(ps, vs), key=lambda e: e[0]):
+      if not same_atom(vals[p_], v):
+        ents.append((p_, vals[p_], v))
+      out[p_] = v
+    return out, ents
+  if n == 'imul':
+    k = c['k']
+    if k <= 0:
+      return [], None                    # clear(): what it reports is the `clear` rule
+    copies = [x for _ in range(k - 1) for x in vals]
+    return vals + copies, [(L + i, MISSING, x) for i, x in enumerate(copies)]
+  raise AssertionError(n)
+
+
+LIST_EDITS = ('insert', 'delidx', 'remove', 'delslice', 'setslice', 'imul')
 
 
 def key_cmp_tuple(path):
@@ -278,6 +353,22 @@ def do_call(node, c):
     node.rebind({pg.KeyPath(list(p)): plain(v) for p, v in c['pairs']})
   elif n == 'update':
     node.update({k: plain(v) for k, v in c['kvs']})
+  elif n == 'insert':
+    node.insert(c['i'], plain(c['v']))
+  elif n == 'delidx':
+    if c.get('via') == 'pop':
+      node.pop(c['i'])
+    else:
+      del node[c['i']]
+  elif n == 'remove':
+    node.remove(c['atom'])
+  elif n == 'setslice':
+    node[c.get('a'):c.get('b'):c.get('step')] = [plain(v) for v in c['vs']]
+  elif n == 'delslice':
+    del node[c.get('a'):c.get('b'):c.get('step')]
+  elif n == 'imul':
+    import operator
+    operator.imul(node, c['k'])
   elif n == 'clear':
     node.clear()
   elif n == 'reverse':
@@ -341,6 +432,18 @@ class Gen:
       return v
     return 100
 
+  def slice_value(self, node, c, i):
+    """A value for position i of a slice assignment: never a str equal to the one it replaces."""
+    vals = [v for _, v in node['items']]
+    try:
+      ps = list(range(*slice(c['a'], c['b'], c['step']).indices(len(vals))))
+    except ValueError:
+      ps = []
+    if c['step'] not in (None, 1):
+      ps = sorted(ps) if c['step'] and c['step'] > 0 else ps
+    old = vals[ps[i]] if i < len(ps) else None
+    return self.value(old if isinstance(old, str) else None)
+
   def fresh_tree(self, depth):
     r = self.r
     kind = r.choice(['dict', 'list'])
@@ -372,8 +475,36 @@ class Gen:
     if kind == 'dict':
       choices += [(2, 'delkey'), (2, 'update'), (1, 'clear'), (1, 'popitem')]
     if kind == 'list':
-      choices += [(2, 'append'), (3, 'extend'), (1, 'clear'), (1, 'reverse')]
+      choices += [(2, 'append'), (3, 'extend'), (1, 'clear'), (1, 'reverse'), (2, 'insert'), (2, 'delidx'),
+                  (1, 'remove'), (3, 'setslice'), (2, 'delslice'), (1, 'imul')]
     name = r.weighted(choices)
+    n = len(node['items'])
+    if name == 'insert':
+      return {'name': 'insert', 'i': r.randint(-n - 2, n + 2), 'v': self.value()}
+    if name == 'delidx':
+      via = r.choice(['del', 'pop'])
+      i = r.randint(0 if via == 'del' and not NEG_DEL_OK[0] else -n, n - 1) if n and r.chance(0.9) else r.choice([n, -n - 1])
+      return {'name': 'delidx', 'via': via, 'i': i}
+    if name == 'remove':
+      atoms = [x for _, x in node['items'] if not is_node(x)]
+      return {'name': 'remove', 'atom': r.choice(atoms) if atoms and r.chance(0.8) else r.choice([77, 'zz'])}
+    if name in ('setslice', 'delslice'):
+      def bound():
+        return None if r.chance(0.25) else r.randint(-n - 2, n + 2)
+      step = r.choice([None, 1, 1, 2, -1, -2, 3, 0] if r.chance(0.5) else [None, 1])
+      c = {'name': name, 'a': bound(), 'b': bound(), 'step': step}
+      if name == 'setslice':
+        size = len(range(*slice(c['a'], c['b'], step).indices(n))) if step != 0 else 0
+        k = r.below(4)
+        if step not in (None, 1, 0) and r.chance(0.85):
+          k = size                                   # an extended slice needs exactly as many values
+        c['vs'] = [self.slice_value(node, c, i) for i in range(k)]
+      return c
+    if name == 'imul':
+      k = r.choice([0, 1, 2, 3, -1])
+      if k >= 2 and any(is_node(x) for _, x in node['items']):
+        k = r.choice([0, 1])                         # replication clones symbolic children (C07)
+      return {'name': 'imul', 'k': k}
     if name == 'setkey':
       k, old = self.target(node)
       if k is None:
@@ -428,6 +559,11 @@ class Gen:
       nodes = all_nodes(shadow)
       path, node = r.choice(nodes) if r.chance(0.7) else max(nodes, key=lambda pn: len(pn[0]))
       step = {'recv': path, 'notify': r.chance(0.85), 'call': self.call(shadow, path, node)}
+      c = step['call']
+      if c['name'] == 'setslice' and c.get('step') in (None, 1):
+        size = len(range(*slice(c['a'], c['b'], 1).indices(len(node['items']))))
+        if len(c['vs']) < size:
+          step['notify'] = True        # notify-off + shrinking slice leaves MISSING placeholders (C02-F03)
       steps.append(step)
       mirror(shadow, json.loads(json.dumps(step)))
     return {'tree': t, 'steps': steps}
@@ -446,6 +582,16 @@ def _diff(pre, post, path=()):
       out += _diff(a[kk][1] if kk in a else MISSING, b[kk][1] if kk in b else MISSING, path + (k,))
     return out
   return [(list(path), pre, post)]
+
+
+CLEAR_NOTIFIES = [False]      # finding F55: clear / popitem / reverse notify nobody on the pinned tree
+
+
+def canon_json(t):
+  """Case-JSON value -> the canonical form `canon` gives to real values."""
+  if not is_node(t):
+    return t
+  return [t['k'], [[k, canon_json(c)] for k, c in t['items']]]
 
 
 def canon_at(c, path):
@@ -692,6 +838,9 @@ class C09(Prop):
     for e in events:
       if e['recv'] not in sub_nodes:
         return {'signature': 'event-to-stranger', 'what': 'receiver %s is not a subscribing node of the tree' % e['recv']}
+    if name in LIST_EDITS:
+      f = self.oracle_list_edit(tree, step, o, events, sub_nodes)
+      return f or self.oracle_order(events, sub_nodes)
     # payload: true old / new values at the reported locations
     reported = {}
     for e in events:
@@ -720,6 +869,9 @@ class C09(Prop):
     for c in changed:
       if not any(c[:len(w)] == w for w in written):
         return {'signature': 'unreported-change', 'what': 'location %s changed but was not written by the call' % c}
+    return self.oracle_order(events, sub_nodes)
+
+  def oracle_order(self, events, sub_nodes):
     # order: a receiver after all receivers below it
     pos = {e['recv']: i for i, e in enumerate(events)}
     for a in pos:
@@ -728,6 +880,52 @@ class C09(Prop):
         if len(pb) > len(pa) and pb[:len(pa)] == pa and pos[b] > pos[a]:
           return {'signature': 'parent-before-child',
                   'what': 'node %s (at %s) was notified before its descendant %s (at %s)' % (a, pa, b, pb)}
+    return None
+
+  def oracle_list_edit(self, tree, step, o, events, sub_nodes):
+    """Position-shifting list calls: the contract is read on the *edit*: every subscribing
+    ancestor-or-self of the list gets one event with exactly the removed items (item -> MISSING, at the
+    position the item had before the call), the inserted items (MISSING -> item, at the position it has
+    after the insertion) and the replaced items (old -> new), relative to the receiver."""
+    c = step['call']
+    recv = step['recv']
+    pre_list = canon_at(o['pre'], recv)
+    vals = [v for _, v in pre_list[1]]              # canonical forms of the real values before the call
+    c = dict(c)
+    if 'v' in c:
+      c['v'] = canon_json(c['v'])
+    if 'vs' in c:
+      c['vs'] = [canon_json(x) for x in c['vs']]
+    r = list_edit(vals, c, is_node=lambda x: isinstance(x, list))
+    if r is None:
+      return None                       # the call raises on a plain list as well (C02's business)
+    newvals, ents = r
+    post = canon_at(o['value'], recv)
+    want_post = ['list', [[i, v] for i, v in enumerate(newvals)]]
+    if post != want_post:
+      return {'signature': 'list-edit-result:' + c['name'],
+              'what': '%s left %s, list semantics give %s' % (json.dumps(c)[:150], json.dumps(post)[:200], json.dumps(want_post)[:200])}
+    if ents is None:                    # `l *= k` with k <= 0 is clear()
+      ents = [(i, v, MISSING) for i, v in enumerate(vals)] if CLEAR_NOTIFIES[0] else []
+    want = [[[pos_], old, new] for pos_, old, new in ents]
+    got = {e['recv']: e['entries'] for e in events}
+    for nid, rp in sub_nodes.items():
+      on_path = rp == recv[:len(rp)]
+      mine = got.get(nid)
+      if not on_path or not want:
+        if mine is not None:
+          return {'signature': 'event-to-bystander', 'what': 'node %s at %s got %s for %s at %s' % (
+              nid, rp, mine[:2], c['name'], recv)}
+        continue
+      if mine is None:
+        return {'signature': 'missing-event', 'what': 'subscribing node %s at %s got no event for %s at %s' % (
+            nid, rp, c['name'], recv)}
+      rel = recv[len(rp):]
+      exp = sorted(json.dumps([rel + p_, a, b]) for p_, a, b in want)
+      if sorted(json.dumps(x) for x in mine) != exp:
+        return {'signature': 'wrong-payload',
+                'what': '%s at %s: node %s at %s was told %s, the edit is %s' % (
+                    json.dumps(c)[:120], recv, nid, rp, json.dumps(mine)[:300], exp[:6])}
     return None
 
   def really_written(self, o, loc):
@@ -778,6 +976,10 @@ class C09(Prop):
         h.append('stale-after:' + s['call']['name'])
       if s['call']['name'] == 'rebind':
         h.append('rebind-pairs:%d' % len(s['call']['pairs']))
+      if s['call']['name'] in ('setslice', 'delslice'):
+        h.append('slice-step:%s' % s['call'].get('step'))
+      if s['call']['name'] == 'delidx':
+        h.append('delidx-via:' + s['call'].get('via', 'del'))
       h.append('recv-depth:%d' % len(s['recv']))
     if not self.nontrivial(case, out):
       h.append('trivial(no subscriber on the path)')
